@@ -313,22 +313,70 @@ func ruleC11_8(c *Ctx, r *Rep) {
 	}
 	st := fieldStores(fn, modPath+"/actions", "FlowControl")
 	for i, f := range []string{"MaxMessages", "MaxBytes"} {
-		own, other := "param:"+fn.Params[i].Name(), "param:"+fn.Params[1-i].Name()
+		own, other := fn.Params[i], fn.Params[1-i]
 		direct, bad := false, false
-		for _, s := range st[f] {
-			src := sources(s.Val)
-			if src[other] {
+		var classify func(v ssa.Value, env map[*ssa.Parameter]ssa.Value, d int)
+		classify = func(v ssa.Value, env map[*ssa.Parameter]ssa.Value, d int) {
+			if d > 12 {
 				bad = true
+				return
 			}
-			if p, ok := strip(s.Val).(*ssa.Parameter); ok && p == fn.Params[i] {
-				direct = true
-			} else if cv, ok := s.Val.(*ssa.Convert); ok && cv.X == ssa.Value(fn.Params[i]) {
-				direct = true
-			} else if _, isK := s.Val.(*ssa.Const); !isK && src[own] {
-				// derived but not the value itself (arithmetic on the client's limit)
+			switch x := v.(type) {
+			case *ssa.Const:
+				return
+			case *ssa.Convert:
+				classify(x.X, env, d+1)
+				return
+			case *ssa.ChangeType:
+				classify(x.X, env, d+1)
+				return
+			case *ssa.Parameter:
+				if b, ok := env[x]; ok {
+					classify(b, env, d+1)
+					return
+				}
+				if x == own {
+					direct = true
+					return
+				}
 				bad = true
+				return
+			case *ssa.Phi:
+				for _, e := range x.Edges {
+					classify(e, env, d+1)
+				}
+				return
+			case *ssa.UnOp:
+				if al, ok := x.X.(*ssa.Alloc); ok && x.Op == token.MUL {
+					for _, s := range allocStores(al) {
+						classify(s.Val, env, d+1)
+					}
+					return
+				}
+			case *ssa.Call:
+				// a private helper that clamps one limit: each of its returns is the value handed in or a constant
+				if cal := x.Call.StaticCallee(); cal != nil && c.inModule(cal) && len(cal.Blocks) > 0 && cal.Signature.Results().Len() == 1 {
+					ne := map[*ssa.Parameter]ssa.Value{}
+					for k, b := range env {
+						ne[k] = b
+					}
+					for k, p := range cal.Params {
+						if k < len(x.Call.Args) {
+							ne[p] = x.Call.Args[k]
+						}
+					}
+					for _, ret := range returnsOf(cal) {
+						classify(retResult(ret, 0), ne, d+1)
+					}
+					return
+				}
 			}
+			bad = true // computed from something (arithmetic on the client's limit, the other limit, ...)
 		}
+		for _, s := range st[f] {
+			classify(s.Val, map[*ssa.Parameter]ssa.Value{}, 0)
+		}
+		_ = other
 		r.Check("C11.8", "C11.8:"+f+"←"+fn.Params[i].Name(), fn.Pos(), direct && !bad, "the client's value itself (or a constant fallback)", "effectiveFlowControl does not hand the client's "+fn.Params[i].Name()+" through as "+f+" (swapped with the other limit, or altered): the outstanding "+strings.ToLower(strings.TrimPrefix(f, "Max"))+" can exceed what the client allowed")
 	}
 	n := 0
